@@ -37,7 +37,7 @@ type verifMapCtl struct {
 //go:linkname verifMap
 var verifMap verifMapCtl
 
-// verifInit switches control on from the environment (VERIF_MAPCTL=1, VERIF_MAPHASH0=<n>) as soon as
+// verifInit switches control on from the environment (VERIF_MAPCTL=1, VERIF_MAPHASH0=<n>, VERIF_MAPR=<n>) as soon as
 // the runtime has read it, so that maps built by package initialisers are covered too.
 func verifInit() {
 	if verifMap.Inited != 0 || envs == nil {
@@ -53,6 +53,15 @@ func verifInit() {
 			}
 		}
 		verifMap.Hash0 = h
+		// VERIF_MAPR=<n>: iteration start used at every site (for binaries that do not link the harness,
+		// e.g. the atlas CLI built with this overlay).
+		r := uintptr(0)
+		for _, c := range []byte(gogetenv("VERIF_MAPR")) {
+			if c >= '0' && c <= '9' {
+				r = r*10 + uintptr(c-'0')
+			}
+		}
+		verifMap.R = r
 	}
 }
 
